@@ -217,10 +217,16 @@ def generate(cfg="A", builddir=None, outpath=None):
                 raise Fail("unit %s has no source row" % nm)
             fr = mult_src[nm][1]
             if float(fr) != float.fromhex(hexf):
-                raise Fail("unit %s: source expression %s does not evaluate to compiled %s" % (nm, fr, hexf))
+                # the table keeps the multiplier AS WRITTEN (that is what the property means by "that suffix's multiplier");
+                # that the compiled table holds another value is reported as a broken tie, and the judge of C04, which
+                # multiplies with the written value, then finds the literals that decode wrongly
+                compiled_mismatch.append("unit %s: source expression %s does not evaluate to compiled %s" % (nm, fr, hexf))
             rows.append((nm, unit, fr.numerator, fr.denominator))
         return rows
+    compiled_mismatch = []
     unit_rows = section("unit-multipliers", unit_table, [])
+    if compiled_mismatch:
+        failed["unit-multipliers-compiled"] = "; ".join(compiled_mismatch[:3]) + (" (and %d more)" % (len(compiled_mismatch) - 3) if len(compiled_mismatch) > 3 else "")
 
     # character-class predicates of lexer.c (file-static) and the <ctype.h> functions the library calls: exhaustive tables over
     # all 256 byte values, one tiny program per predicate (a predicate that was renamed or removed costs only its own table)
